@@ -1335,3 +1335,92 @@ def accumulator_census(syn, mod_prefixes):
                     ok = False
             rows.append({"fn": f, "name": name, "init": init, "updates": ups, "monotone": ok})
     return rows
+
+
+def disjuncts(e):
+    """the operands of a (nested, parenthesised) `||` chain as normalised source strings, as a sorted list"""
+    out = []
+    def go(x):
+        x = strip(x)
+        while x.get("k") == "paren":
+            x = strip(x["e"])
+        if x.get("k") == "binary" and x["op"] == "||":
+            go(x["l"])
+            go(x["r"])
+        else:
+            t = src(x).replace(" ", "")
+            while t.startswith("(") and t.endswith(")") and _balanced(t[1:-1]):
+                t = t[1:-1]
+            out.append(t)
+    go(e)
+    return sorted(out)
+
+
+def _balanced(t):
+    d = 0
+    for ch in t:
+        if ch == "(":
+            d += 1
+        elif ch == ")":
+            d -= 1
+            if d < 0:
+                return False
+    return d == 0
+
+
+def inline_lets(node):
+    """copy of a syntax tree in which immutable single-identifier `let x = e;` bindings (no type-changing patterns, no `mut`,
+    no `else`) are substituted into the later uses of `x` in the same block and the `let` statements dropped. Text-shaped rules
+    apply it first, so that naming an intermediate value (`let width = token.width(); .. offset_pos(width)`) is not a change."""
+    import copy
+
+    def subst(n, env):
+        if isinstance(n, list):
+            return [subst(x, env) for x in n]
+        if not isinstance(n, dict):
+            return n
+        k = n.get("k")
+        if k == "path" and n["p"] in env:
+            return env[n["p"]]
+        if k == "block":
+            env2 = dict(env)
+            out = []
+            for st in n["stmts"]:
+                if st.get("k") == "local" and st.get("init") is not None and st.get("else") is None and st["pat"].get("k") == "pident" \
+                        and not st["pat"].get("mut") and not st["pat"].get("ref") and st["pat"].get("sub") is None:
+                    init = subst(st["init"], env2)
+                    name = st["pat"]["name"]
+                    # only pure-looking initialisers that are used at most twice later are inlined (a `?` may be duplicated textually;
+                    # this is a rendering for comparison, not a program)
+                    env2[name] = init
+                    continue
+                # a re-binding by any other pattern ends the substitution of that name
+                if st.get("k") == "local":
+                    for p in walk(st["pat"]):
+                        if p.get("k") == "pident":
+                            env2.pop(p["name"], None)
+                out.append(subst(st, env2))
+            m = dict(n)
+            m["stmts"] = out
+            return m
+        if k == "closure":
+            env2 = dict(env)
+            for p in n.get("params", []):
+                for x in walk(p):
+                    if x.get("k") == "pident":
+                        env2.pop(x["name"], None)
+            return {kk: subst(v, env2) for kk, v in n.items()}
+        if k in ("match",):
+            m = dict(n)
+            m["e"] = subst(n["e"], env)
+            arms = []
+            for a in n["arms"]:
+                env2 = dict(env)
+                for x in walk(a["pat"]):
+                    if x.get("k") == "pident":
+                        env2.pop(x["name"], None)
+                arms.append({kk: (subst(v, env2) if kk != "pat" else v) for kk, v in a.items()})
+            m["arms"] = arms
+            return m
+        return {kk: subst(v, env) for kk, v in n.items()}
+    return subst(copy.deepcopy(node), {})
